@@ -104,7 +104,7 @@ def run(res):
     cov.update({
         "evaluations": len(cases),
         "distinct_nontrivial": len(nontrivial),
-        "rule": "real Node + MemoryKVVStore; blocks connected / disconnected with follower-style proofs (compact filter + SpvProof::build over the forward / reverse watches the signer reports), the model is given what the proof delivered, the property monitor judges burial on the full chain; channels (peer in {0,1}) x (dbid in {1..4}; malformed also 0 and 2^64-1), with / "
+        "rule": "real Node + MemoryKVVStore; half of the random / malformed cases, the scripted forgotten-id-asked-again history (stub forgotten; ready channel forgotten, buried, pruned; same and lower dbids of both peers asked again before and after a restart) and a third of the other scripted histories run under a policy filter that demotes tags - permissive, warn rule for the prefix policy-channel-, exact warn rule for policy-channel-original-channel-id-reuse - or under the shadowed permissive filter; the model has no filter input, the refusal of a forgotten or lower dbid is expected under all of them; blocks connected / disconnected with follower-style proofs (compact filter + SpvProof::build over the forward / reverse watches the signer reports), the model is given what the proof delivered, the property monitor judges burial on the full chain; channels (peer in {0,1}) x (dbid in {1..4}; malformed also 0 and 2^64-1), with / "
                 "without a permanent id, with / without an HTLC on the commitment, peer 1 in lockstep (holder and counterparty commitment with the same number both held), dbid 3 funded by the counterparty with an HTLC offered to us that enters through validate_holder_commitment_tx_phase2 / sign_counterparty_commitment_tx_phase2 and THEIR commitment closing; harness op Fulfill = Channel::htlcs_fulfilled + commitment request, with or (two times in three) without a later request that writes the node entry, the claimability handed to the model and used by the monitor comes from the harness's own record of preimages handed over; scripted: each pruning reason at depth "
                 "MIN_DEPTH-2, -1, MIN_DEPTH (constants read from the source), forget before / after burial, reorg across "
                 "the threshold, the close reorged out and back, restart between forget and the next block, stub age at "
